@@ -1299,6 +1299,7 @@ package gocql
 // A compressor is kept only if the server advertised its name in SUPPORTED (spec §4.1.1 STARTUP).
 //@ func (s *startupCoordinator) startup
 //@   props C05 C18 C20
+//@   mode int
 //@   count_calls Name
 //@   requires s.conn != nil && ctx != nil && s.conn.cfg != nil && conn_ok(s.conn)
 // a compressor stays on the connection only if the server advertised it by name, and then STARTUP names it;
